@@ -105,6 +105,15 @@ static void clear_cb(void *e, void *p)
     }
 }
 
+/* what find / erase are asked for: a stand-alone object carrying the key, or (alias) an element that is itself
+ * held in the tree and has that key, when there is one */
+static const struct el *probe_for(struct el *probe, int key, int alias)
+{
+    int i;
+    memset(probe, 0, sizeof *probe); probe->key = key;
+    if (alias) for (i = N; i >= 1; i--) if (held[i] && pool[i].key == key) return &pool[i];
+    return probe;
+}
 static void drv_apply(const vop_t *op, jb_t *res)
 {
     switch (op->k) {
@@ -121,18 +130,16 @@ static void drv_apply(const vop_t *op, jb_t *res)
         break;
     }
     case 1: {
-        struct el probe; void *r; int id;
-        memset(&probe, 0, sizeof probe); probe.key = op->a[0];
-        r = RB ? cstl_rbtree_erase(&T[cur], &probe) : cstl_bintree_erase(BT(), &probe);
+        struct el probe; void *r; int id; const struct el *pp = probe_for(&probe, op->a[0], op->a[1]);
+        r = RB ? cstl_rbtree_erase(&T[cur], pp) : cstl_bintree_erase(BT(), pp);
         id = id_of_el(r);
         if (id > 0) held[id] = 0;
         jb_printf(res, ",\"ret\":%d", id);
         break;
     }
     case 2: {
-        struct el probe; const void *r, *par = (void *)&probe;
-        memset(&probe, 0, sizeof probe); probe.key = op->a[0];
-        r = RB ? cstl_rbtree_find(&T[cur], &probe, op->a[1] ? NULL : &par) : cstl_bintree_find(BT(), &probe, op->a[1] ? NULL : &par);
+        struct el probe; const void *r, *par = (void *)&probe; const struct el *pp = probe_for(&probe, op->a[0], op->a[2]);
+        r = RB ? cstl_rbtree_find(&T[cur], pp, op->a[1] ? NULL : &par) : cstl_bintree_find(BT(), pp, op->a[1] ? NULL : &par);
         jb_printf(res, ",\"ret\":%d,\"par\":%d", id_of_el(r), op->a[1] ? 0 : id_of_el(par));   /* a[1]: the parent is not asked for */
         break;
     }
@@ -170,8 +177,8 @@ static void drv_opjson(const vop_t *op, jb_t *b)
 {
     switch (op->k) {
     case 0: jb_printf(b, "\"op\":\"ins\",\"n\":%d,\"h\":%s", op->a[0], op->a[1] ? "true" : "false"); break;
-    case 1: jb_printf(b, "\"op\":\"era\",\"k\":%d", op->a[0]); break;
-    case 2: jb_printf(b, "\"op\":\"find\",\"k\":%d,\"nopar\":%s", op->a[0], op->a[1] ? "true" : "false"); break;
+    case 1: jb_printf(b, "\"op\":\"era\",\"k\":%d,\"alias\":%s", op->a[0], op->a[1] ? "true" : "false"); break;
+    case 2: jb_printf(b, "\"op\":\"find\",\"k\":%d,\"nopar\":%s,\"alias\":%s", op->a[0], op->a[1] ? "true" : "false", op->a[2] ? "true" : "false"); break;
     case 3: jb_printf(b, "\"op\":\"foreach\",\"rev\":%s,\"stop\":%d", op->a[0] ? "true" : "false", op->a[1]); break;
     case 4: jb_printf(b, "\"op\":\"clear\",\"poison\":%s", op->a[0] ? "true" : "false"); break;
     case 5: jb_puts(b, "\"op\":\"height\""); break;
@@ -228,9 +235,9 @@ static int drv_enum(vop_t *ops, int max)
     int no = 0, n, h, k, d, j, sz = (int)BT()->size;
     (void)max;
     for (n = 1; n <= N; n++) if (!held[n]) for (h = 0; h < 2; h++) { vop_t o = { 0, { n, h } }; ops[no++] = o; }
-    for (k = 1; k <= MAXK; k++) { vop_t o = { 1, { k } }; ops[no++] = o; }
+    for (k = 1; k <= MAXK; k++) { vop_t o = { 1, { k } }, o2 = { 1, { k, 1 } }; ops[no++] = o; ops[no++] = o2; }   /* o2: asked for through a held element */
     if (PROBES) {
-        for (k = 0; k <= MAXK + 1; k++) { vop_t o = { 2, { k } }, o2 = { 2, { k, 1 } }; ops[no++] = o; ops[no++] = o2; }
+        for (k = 0; k <= MAXK + 1; k++) { vop_t o = { 2, { k } }, o2 = { 2, { k, 1 } }, o3 = { 2, { k, 0, 1 } }; ops[no++] = o; ops[no++] = o2; ops[no++] = o3; }
         for (d = 0; d < 2; d++) for (j = 0; j <= 3 * sz && j <= 2 * N; j++) {
             /* stop positions: never (0), and each callback index that can occur */
             vop_t o = { 3, { d, j } };
@@ -252,8 +259,8 @@ static int drv_random(unsigned long (*rnd)(void), vop_t *op)
         for (tries = 0; tries < 8; tries++) { n = 1 + (int)(rnd() % (unsigned)N); if (!held[n]) break; }
         if (held[n]) { op->k = 1; op->a[0] = pool[n].key; return 1; }
         op->k = 0; op->a[0] = n; op->a[1] = (int)(rnd() & 1);
-    } else if (r < 85) { op->k = 1; op->a[0] = 1 + (int)(rnd() % (unsigned)MAXK);
-    } else if (r < 90) { op->k = 2; op->a[0] = (int)(rnd() % (unsigned)(MAXK + 2)); op->a[1] = (int)(rnd() & 1);
+    } else if (r < 85) { op->k = 1; op->a[0] = 1 + (int)(rnd() % (unsigned)MAXK); op->a[1] = (int)(rnd() & 1);
+    } else if (r < 90) { op->k = 2; op->a[0] = (int)(rnd() % (unsigned)(MAXK + 2)); op->a[1] = (int)(rnd() & 1); op->a[2] = (int)(rnd() & 1);
     } else if (r < 95) { op->k = 3; op->a[0] = (int)(rnd() & 1); op->a[1] = (rnd() & 1) ? 0 : (int)(rnd() % (unsigned)(2 * sz + 1));
     } else if (r < 97) { op->k = 5;
     } else if (r < 98 && sz < 12) { op->k = 4; op->a[0] = 1;
